@@ -7,7 +7,7 @@
 (L) `tc`      : `Thermodynamics.findCriticalTemperature` on two traced phases vs the closed-form T_c.
 (L) `inttemp` : the starting temperature given as a Python int (same physics, other Python type).
 (H) `history` : BFS over re-trace histories {A: trace(range A), B: trace(wider range B), C: trace(range A, other dT)}
-                on ONE FreeEnergy object, depth <= 2 (quick) / 3 (thorough); the table after every history
+                on ONE FreeEnergy object, depth <= 2 (quick) / 4 (thorough); the table after every history
                 must satisfy the same invariants.
 
 Oracle = vmc.models (closed forms); nothing here calls findLocalMinimum / tracePhase to produce expected values.
@@ -710,7 +710,7 @@ def history_shards(tier: str) -> list[dict]:
                    ("cubic1", "brk", "spinhi", 1.0, False)]
     for (key, phase, start, s, par) in shards:
         out.append({"id": f"{key}/{phase},start={start},par={'T' if par else 'F'},s={s:g}", "model": key, "phase": phase,
-                    "start": start, "s": s, "paranoid": par, "depth": 2 if tier == "quick" else 3, "rTol": 1e-6})
+                    "start": start, "s": s, "paranoid": par, "depth": 2 if tier == "quick" else 4, "rTol": 1e-6})
     return with_ids(out)
 
 
@@ -833,7 +833,7 @@ def run(ctx) -> None:
             st = sum(x.get("bfs", {}).get("states", 0) for x in results)
             tr = sum(x.get("bfs", {}).get("transitions", 0) for x in results)
             ctx.add_bfs(st, tr, tr)
-            ctx.note("history_depth_completed", 2 if ctx.tier == "quick" else 3)
+            ctx.note("history_depth_completed", 2 if ctx.tier == "quick" else 4)
             ctx.note("history_alphabet", ["A: trace(range inside existence)", "B: trace(wider range, past the spinodals)", "C: trace(range A, dT*0.3)"])
         ctx.note(f"{name}_cases", len(cases))
         if name == "trace":
